@@ -300,8 +300,14 @@ func Enumerate(tier string, seed int64) []*Schema {
 		allp = append(allp, fd(fmt.Sprintf("f%d", i), P(p)))
 	}
 	add(&Schema{Name: "sprims", Records: []*Record{st("Sp", allp...)}}, "prims", "struct")
-	// 2. every primitive as a message field
-	add(&Schema{Name: "mprims", Records: []*Record{msg("Mp", allp...)}}, "prims", "message")
+	// 2. every primitive as a message field (small messages keep the queries small)
+	for i := 0; i < len(Prims); i += 4 {
+		var fs []Field
+		for j := i; j < i+4 && j < len(Prims); j++ {
+			fs = append(fs, fd(fmt.Sprintf("f%d", j), P(Prims[j])))
+		}
+		add(&Schema{Name: fmt.Sprintf("mprims%d", i/4), Records: []*Record{msg("Mp", fs...)}}, "prims", "message")
+	}
 	// 3. arrays of every primitive in a struct (pairs keep the functions small)
 	for i := 0; i < len(Prims); i += 4 {
 		var fs []Field
